@@ -93,6 +93,7 @@ def _poly(ctx, p, rng):
     except Exception as e:
         ctx.skip('not-traceable:poly:' + rec); return
     pts = [xr.copy()] + [rng.integers(-3, 4, size=N).astype(float), np.round(rng.normal(size=N) * 1.5, 3), np.round(rng.normal(size=N), 3)]
+    kept = []          # results handed out earlier must not be changed by later driver calls
     for ip, x in enumerate(pts):
         where = 'at-recording-point' if ip == 0 else 'away'
         xq = [Fraction(float(v)) for v in x]
@@ -113,6 +114,7 @@ def _poly(ctx, p, rng):
             except Exception as e:
                 ctx.violation(mech + ':raises', dict(info, error=str(e)[:200])); return False
             if _cmp(ctx, mech, got, ref, scale, info):
+                kept.append((name, where, got, np.array(got, copy=True)))
                 ctx.ok('poly:' + name, ('poly', name, rec, where, N, M), sample=dict(info, driver=name) if rng.random() < 0.004 else None)
                 return True
             return False
@@ -158,6 +160,10 @@ def _poly(ctx, p, rng):
                         if e > Fraction(1, 10 ** 9) * (maj[d].re + 1):
                             ctx.violation(mech + ':value', dict(info, D=D, P=P, direction=pp, entry=[m, i], order=d, got=float(JU.data[d, pp, m, i]), want=float(ref[d].re))); return
         ctx.ok('poly:jacobian_utpm', ('poly', 'jacobian_utpm', rec, where, N, M, D, P))
+    for (nm, wh, obj, snap) in kept:
+        if not np.array_equal(np.asarray(obj), snap):
+            ctx.violation('poly:%s:returned-value-changed-by-later-call' % nm, {'N': N, 'M': M, 'rec': rec, 'driver': nm}); return
+    ctx.ok('poly:results-stable', ('stable', rec, N, M))
 
 
 def _poly_series(poly, xs, D):
